@@ -197,8 +197,11 @@ def handle (i o : Json) : Except String Reply := do
     | none => return { model := model, holds := true }
     | some k =>
       let v := verdicts.getD k ⟨false, ""⟩
-      return { model := model, holds := false,
-               why := s!"{v.why} [call {k + 1} of {cs.length} in one process; the same call made alone is judged the same way]" }
+      let note := s!"call {k + 1} of {cs.length} made in one process"
+      -- a recorded finding keeps its key in front; anything else is labelled as a history failure
+      let why := if v.why.startsWith "reserved-names-visible:" then s!"{v.why} [{note}]"
+                 else s!"history ({note}; judged as if made alone): {v.why}"
+      return { model := model, holds := false, why := why }
 
 end CylcModel.DrvC24
 
